@@ -4,6 +4,7 @@ import (
 	"fmt"
 	"image/color"
 	"math/rand"
+	"reflect"
 
 	"github.com/boombuler/barcode"
 	"github.com/boombuler/barcode/aztec"
@@ -64,8 +65,58 @@ func (r Req) int(i int) int64 {
 
 var families = []string{"qr", "datamatrix", "aztec", "pdf417", "code128", "code128nocs", "code39", "code93", "codabar", "ean", "2of5"}
 
+// sliceColor is a colour type that is not comparable with == (its dynamic type is a slice).
+type sliceColor []uint16
+
+func (s sliceColor) RGBA() (r, g, b, a uint32) {
+	return uint32(s[0]), uint32(s[1]), uint32(s[2]), 0xffff
+}
+
+const degenerateSchemeBase = 100000
+const degenerateSchemeClasses = 7
+
+// degenerateScheme: legal but unusual schemes — equal colours, colours that render
+// alike, colours that collapse under the model, transparent ink or paper, colour
+// values of an uncomparable type.  Representability of the content does not depend
+// on the scheme, and the WithColor variants must use it as given.
+func degenerateScheme(k int64) barcode.ColorScheme {
+	switch k % degenerateSchemeClasses {
+	case 0:
+		return barcode.ColorScheme{Model: color.RGBAModel, Foreground: color.RGBA{200, 10, 10, 255}, Background: color.RGBA{200, 10, 10, 255}}
+	case 1:
+		return barcode.ColorScheme{Model: color.RGBAModel, Foreground: color.Gray{0}, Background: color.RGBA{0, 0, 0, 255}}
+	case 2:
+		return barcode.ColorScheme{Model: color.GrayModel, Foreground: color.RGBA{255, 0, 0, 255}, Background: color.Gray{76}}
+	case 3:
+		return barcode.ColorScheme{Model: color.RGBAModel, Foreground: color.RGBA{}, Background: color.RGBA{255, 255, 255, 255}}
+	case 4:
+		return barcode.ColorScheme{Model: color.NRGBAModel, Foreground: color.NRGBA{0, 0, 0, 255}, Background: color.NRGBA{0, 0, 0, 0}}
+	case 5:
+		return barcode.ColorScheme{Model: color.RGBA64Model, Foreground: sliceColor{0, 0, 0x8000}, Background: sliceColor{0xffff, 0xffff, 0xf000}}
+	default:
+		return barcode.ColorScheme{Model: color.AlphaModel, Foreground: color.Black, Background: color.White}
+	}
+}
+
+// sameColor is == for colour values that also works for uncomparable dynamic types.
+func sameColor(a, b color.Color) (eq bool) {
+	defer func() {
+		if recover() != nil {
+			eq = reflect.DeepEqual(a, b)
+		}
+	}()
+	return a == b
+}
+
+func sameScheme(a, b barcode.ColorScheme) bool {
+	return a.Model == b.Model && sameColor(a.Foreground, b.Foreground) && sameColor(a.Background, b.Background)
+}
+
 // schemeOf maps a scheme id to a colour scheme; ids 0..3 are the library's own.
 func schemeOf(id int64) barcode.ColorScheme {
+	if id >= degenerateSchemeBase {
+		return degenerateScheme(id - degenerateSchemeBase)
+	}
 	switch id {
 	case 0:
 		return barcode.ColorScheme16
